@@ -317,7 +317,7 @@ def run(ctx):
                         judge_invalid(ctx, deco % text, cls)
                         n += 1
     # fuzz
-    nf = 1500 if ctx.tier == 'quick' else 60000
+    nf = 1500 if ctx.tier == 'quick' else 400000
     accepted = 0
     for j in range(nf):
         text = fuzz_line(rng)
@@ -329,7 +329,7 @@ def run(ctx):
             ctx.put_sample({'fuzzed_line': text, 'outcome': 'message' if r is not None else 'ValueError'})
     ctx.extra('fuzz_lines_accepted', accepted)
     ctx.extra('fuzz_lines', nf)
-    ns = 150 if ctx.tier == 'quick' else 6000
+    ns = 150 if ctx.tier == 'quick' else 40000
     for j in range(ns):
         seed = f'{ctx.seed}:{ctx.shard}:s{j}'
         stream_case(ctx, seed)
